@@ -53,6 +53,7 @@ type Srv struct {
 
 	// fault injection (the target's ANSWERS are not pandora's: any status may come back)
 	plan    []uint32 // answer to the i-th unary call since SetPlan (0 = handle normally)
+	delays  []int    // latency (ms) of the answer to the i-th unary call since SetPlan (parallel to plan)
 	planPos int
 	faultFn func(c Call) uint32 // content-keyed answer (0 = handle normally); used when no plan slot applies
 }
@@ -61,7 +62,17 @@ type Srv struct {
 // codes WITHOUT running the handler (0 = run the handler). Calls beyond the plan are handled normally.
 func (s *Srv) SetPlan(p []uint32) {
 	s.mu.Lock()
-	s.plan, s.planPos = p, 0
+	s.plan, s.delays, s.planPos = p, nil, 0
+	s.mu.Unlock()
+}
+
+// SetPlanDelays is SetPlan with the target's LATENCY as well: the i-th call is answered d[i] ms after
+// its arrival (0 / missing = at once). A call whose latency is not less than the deadline it arrived
+// with is not answered in time: the target records DeadlineExceeded (4) for it at arrival and holds it
+// until its context ends. The recorded TimeoutS is always the remaining deadline AT ARRIVAL.
+func (s *Srv) SetPlanDelays(p []uint32, d []int) {
+	s.mu.Lock()
+	s.plan, s.delays, s.planPos = p, d, 0
 	s.mu.Unlock()
 }
 
@@ -221,9 +232,13 @@ func (s *Srv) intercept(ctx context.Context, req interface{}, info *grpc.UnarySe
 		c.TimeoutS = int(math.Round(time.Until(dl).Seconds()))
 	}
 	var forced uint32
+	var delay time.Duration
 	s.mu.Lock()
 	if s.planPos < len(s.plan) {
 		forced = s.plan[s.planPos]
+		if s.planPos < len(s.delays) {
+			delay = time.Duration(s.delays[s.planPos]) * time.Millisecond
+		}
 		s.planPos++
 	} else if s.faultFn != nil {
 		forced = s.faultFn(c)
@@ -231,6 +246,22 @@ func (s *Srv) intercept(ctx context.Context, req interface{}, info *grpc.UnarySe
 	s.mu.Unlock()
 	var resp interface{}
 	var err error
+	if delay > 0 {
+		if dl, ok := ctx.Deadline(); ok && delay >= time.Until(dl) {
+			// not answered within the deadline the call arrived with
+			c.Status = uint32(codes.DeadlineExceeded)
+			s.mu.Lock()
+			s.rec = append(s.rec, c)
+			s.n++
+			s.mu.Unlock()
+			<-ctx.Done()
+			return nil, status.Error(codes.DeadlineExceeded, "the target did not answer in time")
+		}
+		select {
+		case <-time.After(delay):
+		case <-ctx.Done():
+		}
+	}
 	if forced != 0 {
 		err = status.Error(codes.Code(forced), "injected by the target")
 	} else {
